@@ -55,6 +55,8 @@ type Pool struct {
 
 	// cancellation plan: cancel() is invoked just before the CancelAt-th call (0-based); -1 = never
 	CancelAt  int
+	// Points lists, per pool call, its kind ("begin", "tx-exec", "commit", …)
+	Points []string
 	Cancel    context.CancelFunc
 	calls     int
 	CancelSeq int64 // event sequence number at which the cancellation happened (0 = did not happen)
@@ -143,6 +145,9 @@ func (p *Pool) enter(point string) {
 	}
 	n := p.calls
 	p.calls++
+	if len(p.Points) < 1024 {
+		p.Points = append(p.Points, point)
+	}
 	if p.CancelAt >= 0 && n == p.CancelAt && p.Cancel != nil {
 		p.Cancel()
 		p.CancelSeq = p.Drv.Tick()
